@@ -500,19 +500,12 @@ func (t *Table) updateVPNIdx(u *Update, newPath, oldPath *Path) {
 	// The path that just left the table (replaced or withdrawn) must leave the
 	// index whatever the path-id discipline of the other paths is.
 	t.vpnIdx.UnregisterPath(oldPath)
-	if newPath.RemoteID() != 0 {
-		// ADD-PATH: each (source, path-ID) pair is a distinct entry.
-		// oldPath is the previous path with the same source×pathID returned by
-		// implicitWithdraw (non-withdrawal) or explicitWithdraw (withdrawal).
-		if newPath.IsWithdraw {
-			t.vpnIdx.UnregisterPath(oldPath)
-		} else {
-			t.vpnIdx.UnregisterPath(oldPath)
-			t.vpnIdx.RegisterPath(newPath)
-		}
-		return
+	// The index holds every path received with a path-ID (ADD-PATH: each
+	// (source, path-ID) pair is a distinct entry) plus the best path of the
+	// NLRI, whatever the path-id discipline of the source of that best path is.
+	if newPath.RemoteID() != 0 && !newPath.IsWithdraw {
+		t.vpnIdx.RegisterPath(newPath)
 	}
-	// No-add-path: track only the best path per NLRI.
 	// KnownPathList is sorted by computeKnownBestPath, so [0] is the best.
 	var oldBest, newBest *Path
 	if len(u.OldKnownPathList) > 0 {
@@ -522,7 +515,10 @@ func (t *Table) updateVPNIdx(u *Update, newPath, oldPath *Path) {
 		newBest = u.KnownPathList[0]
 	}
 	if oldBest != newBest {
-		t.vpnIdx.UnregisterPath(oldBest)
+		if oldBest != nil && oldBest.RemoteID() == 0 {
+			// a path without path-ID is indexed only while it is the best one
+			t.vpnIdx.UnregisterPath(oldBest)
+		}
 		t.vpnIdx.RegisterPath(newBest)
 	}
 }
